@@ -28,6 +28,8 @@
 #endif
 #ifdef SIM_WORKER_ASAN
 #  include <sanitizer/common_interface_defs.h>
+#endif
+#if defined(SIM_WORKER_ASAN) && !defined(VERIF_SECONDARY_TU)
 extern "C" const char * __asan_default_options();
 extern "C" __attribute__((used, visibility("default"))) const char * __asan_default_options()
 {
@@ -50,7 +52,9 @@ struct RunOut
 	bool nontrivial;
 	long steps;
 	std::vector<int> choices;
-	RunOut() : violation(false), logHash(0), caseHash(0), nontrivial(false), steps(0) {}
+	std::vector<int> faults;   // the fault sequence that produced the violation (FLT), copied into the replay plan
+	long subRuns;              // executions performed inside this evaluation (fault enumeration)
+	RunOut() : violation(false), logHash(0), caseHash(0), nontrivial(false), steps(0), subRuns(0) {}
 	void fail(const std::string & c, const std::string & d) { if(!violation) { violation = true; cls = c; detail = d; } }
 };
 
@@ -95,6 +99,12 @@ inline void sanitizerDeath()
 	writeCrashLine("sanitizer", 0);
 }
 
+inline void alarmHandler(int)
+{
+	writeCrashLine("hang", 14);
+	_exit(80);
+}
+
 inline void terminateHandler()
 {
 	writeCrashLine("terminate", 0);
@@ -124,6 +134,7 @@ inline void printViolation(long index, uint64_t seed, const Plan & plan, const R
 	Plan p = plan;
 	p.choices = out.choices;
 	p.useChoices = !out.choices.empty();
+	if(!out.faults.empty()) p.faults = out.faults;
 	std::string line = "V {\"i\":" + std::to_string(index) + ",\"seed\":\"" + hex64(seed) + "\",\"class\":\"" + jsonEscape(out.cls)
 		+ "\",\"detail\":\"" + jsonEscape(out.detail) + "\",\"hash\":\"" + hex64(violationHash(out)) + "\",\"describe\":\""
 		+ jsonEscape(engine::describe(plan)) + "\",\"plan\":" + planToJson(p) + "}\n";
@@ -162,6 +173,7 @@ inline int workerMain(int argc, char ** argv)
 	std::signal(SIGBUS, crashSignalHandler);
 	std::signal(SIGFPE, crashSignalHandler);
 	std::signal(SIGILL, crashSignalHandler);
+	std::signal(SIGALRM, alarmHandler);
 	std::set_terminate(terminateHandler);
 #ifdef SIM_WORKER_ASAN
 	__sanitizer_set_death_callback(sanitizerDeath);
@@ -184,7 +196,9 @@ inline int workerMain(int argc, char ** argv)
 		if(resched >= 0) { plan.useChoices = false; plan.choices.clear(); plan.setSchedSeed((uint64_t)resched * 0x9e3779b97f4a7c15ULL + 12345); }
 		workerState().currentIndex = -2;
 		RunOut out;
+		alarm(60);
 		engine::execute(plan, out);
+		alarm(0);
 		if(out.violation) {
 			printViolation(-2, 0, plan, out);
 			return 1;
@@ -194,7 +208,7 @@ inline int workerMain(int argc, char ** argv)
 	}
 
 	const double t0 = wallNow();
-	long runs = 0, violations = 0, nontrivial = 0, pilots = 0;
+	long runs = 0, violations = 0, nontrivial = 0, pilots = 0, subRuns = 0;
 	uint64_t steps = 0;
 	std::unordered_set<uint64_t> distinct;
 	std::vector<std::string> samples;
@@ -203,6 +217,7 @@ inline int workerMain(int argc, char ** argv)
 		const long index = start + n * stride;
 		const uint64_t seed = mixSeed(base, (uint64_t)index);
 		workerState().currentIndex = index;
+		alarm(60); // watchdog: a real hang (e.g. self-deadlock on std::mutex) becomes a reported seed
 		Plan plan;
 		engine::generate(seed, plan);
 		RunOut out;
@@ -221,7 +236,7 @@ inline int workerMain(int argc, char ** argv)
 		}
 		if(!reported) {
 			engine::execute(plan, out);
-			++runs; steps += (uint64_t)out.steps;
+			++runs; steps += (uint64_t)out.steps; subRuns += out.subRuns;
 			if(out.violation) { printViolation(index, seed, plan, out); reported = true; }
 			else if(out.nontrivial) { ++nontrivial; distinct.insert(out.caseHash); }
 		}
@@ -233,6 +248,7 @@ inline int workerMain(int argc, char ** argv)
 		}
 	}
 	workerState().currentIndex = -1;
+	alarm(0);
 
 	if(hashFile) {
 		FILE * f = std::fopen(hashFile, "wb");
@@ -244,7 +260,7 @@ inline int workerMain(int argc, char ** argv)
 	}
 
 	std::string s = "S {\"engine\":\"" + std::string(engine::kName) + "\",\"runs\":" + std::to_string(runs)
-		+ ",\"pilots\":" + std::to_string(pilots)
+		+ ",\"pilots\":" + std::to_string(pilots) + ",\"sub_runs\":" + std::to_string(subRuns)
 		+ ",\"violations\":" + std::to_string(violations) + ",\"nontrivial\":" + std::to_string(nontrivial)
 		+ ",\"distinct\":" + std::to_string((long)distinct.size()) + ",\"steps\":" + std::to_string((unsigned long long)steps)
 		+ ",\"wall\":" + std::to_string(wallNow() - t0) + ",\"samples\":[";
